@@ -1090,6 +1090,86 @@ Qed.
 End Law.
 
 (* ------------------------------------------------------------------ *)
+(* each outcome of the selection is listed once: its mass in the list IS its probability *)
+Lemma NoDup_app_disjoint : forall (A : Type) (l1 l2 : list A),
+  NoDup l1 -> NoDup l2 -> (forall x, In x l1 -> ~ In x l2) -> NoDup (l1 ++ l2).
+Proof.
+  intros A l1 l2 H1 H2 Hd. induction l1 as [|a l1 IH]; [exact H2|].
+  apply NoDup_cons_iff in H1. destruct H1 as [Ha H1]. cbn [app]. constructor.
+  - intro Hin. apply in_app_or in Hin. destruct Hin as [Hin|Hin]; [contradiction|].
+    apply (Hd a (or_introl eq_refl)). exact Hin.
+  - apply IH; [exact H1|]. intros x Hx. apply Hd. right. exact Hx.
+Qed.
+
+Lemma map_fst_scale : forall A p (d : dist A), map fst (scale p d) = map fst d.
+Proof. intros A p d. unfold scale. rewrite map_map. reflexivity. Qed.
+
+Lemma kl_cands_keys : forall L : kld, Permutation (map fst (kl_cands L)) (items L).
+Proof.
+  intro L. unfold kl_cands. eapply Permutation_trans; [apply Permutation_map; apply ksort_perm|].
+  rewrite map_map. cbn [fst]. rewrite map_id. apply Permutation_refl.
+Qed.
+
+Definition sel_block (slots : list slot) (i : nat) : list (nat * key) :=
+  match nth_error slots i with
+  | None => []
+  | Some sl => map (fun cw => (i, fst cw)) (kl_cands (sl_pot sl))
+  end.
+
+Lemma choose_block_outcomes : forall (coef : key * Q -> Q) (i : nat) (c : list (key * Q)),
+  concat (map (fun x => map fst (scale (coef x) [((i, fst x), 1)])) c) = map (fun cw => (i, fst cw)) c.
+Proof.
+  intros coef i c. induction c as [|cw c IH]; [reflexivity|].
+  cbn [map concat]. rewrite IH. reflexivity.
+Qed.
+
+Lemma select_outcomes : forall s,
+  map fst (law (select s)) =
+  concat (map (fun ip => sel_block (s_sp s ++ s_in s) (fst ip))
+              (combine (seq 0 (length (s_sp s ++ s_in s)))
+                       (map (fun sl => slot_rate sl / total_rate s) (s_sp s ++ s_in s)))).
+Proof.
+  intro s. unfold select. cbn [law]. rewrite map_length, concat_map, map_map.
+  f_equal. apply map_ext. intros [i p]. cbn [fst snd]. rewrite map_fst_scale.
+  unfold sel_block. destruct (nth_error (s_sp s ++ s_in s) i) as [sl|]; [|reflexivity].
+  cbn [law]. rewrite concat_map, map_map. apply choose_block_outcomes.
+Qed.
+
+Lemma sel_blocks_nodup : forall slots (ps : list Q) start,
+  (forall sl, In sl slots -> NoDup (items (sl_pot sl))) ->
+  NoDup (concat (map (fun ip : nat * Q => sel_block slots (fst ip)) (combine (seq start (length ps)) ps))) /\
+  forall x, In x (concat (map (fun ip : nat * Q => sel_block slots (fst ip)) (combine (seq start (length ps)) ps))) ->
+            (start <= fst x)%nat.
+Proof.
+  intros slots ps. induction ps as [|p ps IH]; intros start Hnd; cbn [length seq combine map concat].
+  - split; [constructor|intros x []].
+  - destruct (IH (S start) Hnd) as [IH1 IH2].
+    assert (Hb : forall x, In x (sel_block slots start) -> fst x = start).
+    { intros x Hx. unfold sel_block in Hx. destruct (nth_error slots start); [|contradiction].
+      apply in_map_iff in Hx. destruct Hx as [cw [E _]]. subst x. reflexivity. }
+    split.
+    + cbn [fst]. apply NoDup_app_disjoint; [|exact IH1|].
+      * unfold sel_block. destruct (nth_error slots start) as [sl|] eqn:En; [|constructor].
+        assert (Hk : NoDup (map fst (kl_cands (sl_pot sl)))).
+        { apply (Permutation_NoDup (Permutation_sym (kl_cands_keys _))). apply Hnd.
+          eapply nth_error_In. exact En. }
+        rewrite <- (map_map fst (fun k => (start, k))).
+        apply FinFun.Injective_map_NoDup; [|exact Hk].
+        intros a b E. injection E as E. exact E.
+      * intros x Hx Hx2. apply Hb in Hx. apply IH2 in Hx2. lia.
+    + cbn [fst]. intros x Hx. apply in_app_or in Hx. destruct Hx as [Hx|Hx]; [apply Hb in Hx; lia|apply IH2 in Hx; lia].
+Qed.
+
+Lemma select_law_nodup : forall g s, SInv g s -> NoDup (map fst (law (select s))).
+Proof.
+  intros g s HI. rewrite select_outcomes.
+  replace (length (s_sp s ++ s_in s))
+    with (length (map (fun sl => slot_rate sl / total_rate s) (s_sp s ++ s_in s))) by apply map_length.
+  apply sel_blocks_nodup. intros sl Hsl.
+  apply (inv_nodup key). apply (so_inv sl). apply (slot_inv_of g s sl HI Hsl).
+Qed.
+
+(* ------------------------------------------------------------------ *)
 (* the loop: waiting-time rate and stop rule                           *)
 Lemma loop_stops_at_zero : forall g ic rstat tmin tmax full fuel t s,
   ~ 0 < total_rate s ->
